@@ -331,7 +331,7 @@ func runPCase(kind string, c PCase, tr *hx.Trace) {
 		}
 
 		if ok {
-			rec.Coq = fmt.Sprintf("{| c_stack := SMem; c_steps := []; c_psteps := [%s]; c_conj := true; c_oracle := %s |}",
+			rec.Coq = fmt.Sprintf("{| c_stack := SMem; c_steps := []; c_psteps := [%s]; c_keytags := []; c_conj := true; c_oracle := %s |}",
 				strings.Join(steps, "; "), hx.CoqBool(rec.Oracle != "fail"))
 		}
 	}
